@@ -378,14 +378,22 @@ def alias_of(o):
 
 
 def underlying(meth):
-    """the undecorated function behind a bound @builder method (or the method itself)"""
+    """the undecorated function behind a bound @builder method (or the method itself); sees through stacked wrappers
+    (the decorator's `_copy`, and the driver's history-perturbation shim around it)"""
     f = getattr(meth, "__func__", meth)
-    cl = getattr(f, "__closure__", None)
-    if cl and f.__name__ == "_copy":
+    for _ in range(6):
+        cl = getattr(f, "__closure__", None)
+        if not cl or not (f.__name__ == "_copy" or getattr(f, "__wrapped_by_purity__", False)):
+            break
+        inner = None
         for c in cl:
             try:
                 if inspect.isfunction(c.cell_contents):
-                    return c.cell_contents
+                    inner = c.cell_contents
+                    break
             except ValueError:
                 pass
+        if inner is None:
+            break
+        f = inner
     return f
